@@ -111,6 +111,8 @@ func propC09(w *World, r *Report) {
 	checkMacRoman(w, r)
 	checkPerCode(w, r)
 	checkExplicitDelta(w, r)
+	checkSegmentSkip(w, r)
+	r.Floor("segmentskip", 1)
 	checkOverlapStrict(w, r, newBoundsRun(w))
 	RunSearchFields(w, r, map[string]bool{"(cmap.Format4).Encode": true})
 	r.Floor("searchfields", 3)
